@@ -221,3 +221,77 @@ def confirm_edit(ctx, rp):
     r = ctx.tlc_trace("EditTrace", "EditTrace_%s.cfg" % rp["property"], p + ".out", label="confirmation")
     rp["observed_again"] = read_ndjson(p + ".out")
     return [v for v in r["viols"] if v["prop"] == rp["property"]]
+
+
+def rerun_generic(ctx, rp):
+    """re-run the harness command of a replay file on its single input line and judge again"""
+    p = os.path.join(ctx.work, "cand%d" % len(os.listdir(ctx.work)))
+    open(p + ".in", "w").write(json.dumps(rp["input"]) + "\n")
+    ctx.vh_json([rp["cmd"], p + ".in", p + ".out"])
+    r = ctx.tlc_trace("FrontTrace", rp["cfg"], p + ".out", label="confirmation")
+    rp["observed_again"] = read_ndjson(p + ".out")
+    return [v for v in r["viols"] if v["prop"] == rp["property"]]
+
+
+def c19(ctx):
+    ctx.build()
+    # (1) histories: every well-formed history up to the bound, printed by TLC from Lsp.tla (its own invariants are checked on the way)
+    hs = gen_lines(ctx, "Lsp", "Lsp_%s.cfg" % ctx.tier, "every LSP history up to the bound with the text each reply must come from", workers=4)
+    g = ctx.tlc("Lsp", "Lsp_sim.cfg", workers=1, simulate="num=%d" % (100 if ctx.tier == "quick" else 2000), depth=12,
+                extra=["-seed", str(ctx.seed)], label="random long histories (simulation)")
+    sim = sorted(set(x[4:] for x in g["printed"] if x.startswith("GEN ")))
+    if g["tlc_error"]:
+        raise Infra("Lsp simulation failed: %s" % g["tlc_error"])
+    hp = os.path.join(ctx.work, "hist.ndjson")
+    open(hp, "w").write("\n".join(hs + sim) + "\n")
+    op = os.path.join(ctx.work, "lsp_obs.ndjson")
+    s1 = ctx.vh_json(["lsp-check", hp, op], timeout=3600)
+    r = ctx.tlc_trace("FrontTrace", "FrontTrace_C19h.cfg", op, label="FrontTrace judges the long-lived server against fresh servers")
+    ctx.cov["evaluations"] += s1["steps"]
+    ctx.cov["distinct_nontrivial"] += s1["nontrivial"]
+    ctx.cov["traces_validated_against_impl"] += s1["cases"]
+    ctx.cov["histories_exhaustive"] = len(hs)
+    ctx.cov["histories_random_long"] = len(sim)
+    ctx.cov["samples"] += (s1["samples"] or [])[:1]
+    viols = [v for v in r["viols"] if v["prop"] == "C19"]
+    if viols:
+        obs = read_ndjson(op)
+        seen = set()
+        for v in viols:
+            if v["what"] in seen:
+                continue
+            o = obs[v["id"]]
+            rp = dict(kind="generic", property="C19", cfg="FrontTrace_C19h.cfg", cmd="lsp-check", input=o["hist"])
+            if rerun_generic(ctx, rp):
+                seen.add(v["what"])
+                st = o["steps"][v["at"] - 1]
+                ctx.add_violation("C19: %s | history: %s | step %d: long-lived -> %s %s ; fresh -> %s %s" % (v["what"], json.dumps(o["hist"]), v["at"], st["long"][:200], st["longpub"][:200], st["fresh"][:200], st["freshpub"][:200]), rp)
+            else:
+                raise Infra("candidate did not reproduce: %s" % v)
+    # (2) navigation at every position of generated scripts (valid ones and their name edits)
+    n = 150 if ctx.tier == "quick" else 1500
+    gp, cnt = syntax_gen(ctx, ctx.seed + 3, n, "names", "Syntax_static1.cfg", "nav", trees_cmd="chk-trees")
+    op2 = os.path.join(ctx.work, "nav_obs.ndjson")
+    s2 = ctx.vh_json(["nav-check", gp, op2], timeout=3600)
+    r2 = ctx.tlc_trace("FrontTrace", "FrontTrace_C19n.cfg", op2, label="FrontTrace judges hover / definition at every position against the token table", timeout=3600)
+    ctx.cov["evaluations"] += s2["positions"]
+    ctx.cov["distinct_nontrivial"] += s2["nontrivial"]
+    ctx.cov["traces_validated_against_impl"] += s2["cases"]
+    ctx.cov["cursor_positions"] = s2["positions"]
+    ctx.cov["samples"] += (s2["samples"] or [])[:1]
+    viols = [v for v in r2["viols"] if v["prop"] == "C19"]
+    if viols:
+        obs = read_ndjson(op2)
+        gens = read_ndjson(gp)
+        seen = set()
+        for v in viols:
+            if v["what"] in seen:
+                continue
+            o = obs[v["id"]]
+            rp = dict(kind="generic", property="C19", cfg="FrontTrace_C19n.cfg", cmd="nav-check", input=gens[v["id"]])
+            if rerun_generic(ctx, rp):
+                seen.add(v["what"])
+                pr = o["probes"][v["at"] - 1] if v.get("at") else None
+                ctx.add_violation("C19: %s | probe %s | text: %r" % (v["what"], pr, o["text"][:300]), rp)
+            else:
+                raise Infra("candidate did not reproduce: %s" % v)
